@@ -211,7 +211,8 @@ inline sim::Plan genPlan(uint64_t seed, const std::string &profile, bool thoroug
     p.cfg["nmax"] = thorough ? 8 : 6;
     const bool force = profile == "C16";
     p.cfg["force"] = force;
-    p.cfg["exact"] = (profile == "C05" && r.pm(300)) ? 0 : 1;
+    p.cfg["exact"] = ((profile == "C05" && r.pm(300)) || (profile == "C06" && r.pm(400))) ? 0 : 1;
+    p.cfg["orphans"] = (profile == "C07" && r.pm(500)) ? 1 : 0;
     p.cfg["nonneg"] = (profile == "C17" || profile == "C18" || profile == "C07") ? (r.pm(700) ? 1 : 0) : 0;
     int maxOps = thorough ? 120 : 40;
     int nops = 1 + (int)r.below((uint64_t)(r.pm(700) ? std::min(maxOps, 24) : maxOps));
@@ -225,6 +226,8 @@ inline sim::Plan genPlan(uint64_t seed, const std::string &profile, bool thoroug
     else if (profile == "C16") { pSnap = rate({0, 20}); }
     else if (profile == "C17" || profile == "C18") { pAlg = rate({100, 200, 300}); pSnap = rate({20, 50}); pPersist = rate({30, 60}); pReplica = rate({0, 30}); pIo = rate({0, 30}); }
     else if (profile == "C13" || profile == "C14" || profile == "C15") { pIo = rate({150, 300, 450}); pPersist = rate({100, 200}); nops = 1 + (int)r.below(thorough ? 40 : 20); }
+    const int pNoSweep = (profile == "C13" || profile == "C14" || profile == "C15") ? 0 : rate({0, 0, 0, 300, 600});
+    p.cfg["p_nosweep"] = pNoSweep;
     p.cfg["p_reject"] = pReject; p.cfg["p_snapshot"] = pSnap; p.cfg["p_persist"] = pPersist; p.cfg["p_replica"] = pReplica; p.cfg["p_alg"] = pAlg; p.cfg["p_io"] = pIo;
     GenCfg gc = makeGenCfg(kind, directed, force, r, true, profile == "C03" ? 3 : 1);
     sim::Op prev;
@@ -273,6 +276,8 @@ inline sim::Plan genPlan(uint64_t seed, const std::string &profile, bool thoroug
         } else {
             o = genMutator(r, gc, prev);
             prev = o;
+            if (pNoSweep && r.pm((unsigned)pNoSweep)) o.y |= F_NOSWEEP;
+            if (p.c("orphans") && kind == LABELED && r.pm(120)) o.k = "orphan";
         }
         p.ops.push_back(o);
     }
